@@ -1,20 +1,238 @@
 package e2e
 
 import (
+	"encoding/json"
+	"errors"
+	"fmt"
+	"math"
+	"sort"
+	"time"
+
+	"github.com/dfklegend/cell2/apimapper/apientry"
+	"github.com/dfklegend/cell2/node/client/impls"
 	cs "github.com/dfklegend/cell2/node/client/session"
 )
 
-// Val is a typed JSON value as the C10 model sees it (see ValTerm / ValOf in c10).
+// Val is a typed JSON value as the C10 model sees it:
+//   int  Go int (what a handler stores locally)      num  float64 (what JSON decoding yields)
+//   str  string token   bool   null   list
 type Val struct {
-	Kind string // "int" | "num" | "str" | "bool" | "null" | "list"
+	Kind string
 	I    int64
 	S    string
 	B    bool
 	L    []*Val
 }
 
+// Go converts a Val into the Go value a handler would store.
+func (v *Val) Go() any {
+	if v == nil {
+		return nil
+	}
+	switch v.Kind {
+	case "int":
+		return int(v.I)
+	case "num":
+		return float64(v.I)
+	case "str":
+		return v.S
+	case "bool":
+		return v.B
+	case "null":
+		return nil
+	case "list":
+		l := make([]any, len(v.L))
+		for i, e := range v.L {
+			l[i] = e.Go()
+		}
+		return l
+	}
+	panic("e2e: bad Val kind " + v.Kind)
+}
+
+// ValOf classifies a Go value read back from a session.
+func ValOf(x any) *Val {
+	switch t := x.(type) {
+	case nil:
+		return &Val{Kind: "null"}
+	case int:
+		return &Val{Kind: "int", I: int64(t)}
+	case int64:
+		return &Val{Kind: "int", I: t}
+	case uint32:
+		return &Val{Kind: "int", I: int64(t)}
+	case float64:
+		if t == math.Trunc(t) && math.Abs(t) < 1e18 {
+			return &Val{Kind: "num", I: int64(t)}
+		}
+		return &Val{Kind: "other", S: fmt.Sprint(t)}
+	case string:
+		return &Val{Kind: "str", S: t}
+	case bool:
+		return &Val{Kind: "bool", B: t}
+	case []any:
+		l := make([]*Val, len(t))
+		for i, e := range t {
+			l[i] = ValOf(e)
+		}
+		return &Val{Kind: "list", L: l}
+	}
+	return &Val{Kind: "other", S: fmt.Sprintf("%T", x)}
+}
+
+// KV is one entry of a dumped session map.
+type KV struct {
+	K string
+	V *Val
+}
+
+// ParseDump decodes a ToJson() string into entries sorted by key.
+func ParseDump(s string) ([]KV, error) {
+	var m map[string]any
+	if err := json.Unmarshal([]byte(s), &m); err != nil {
+		return nil, err
+	}
+	ks := make([]string, 0, len(m))
+	for k := range m {
+		ks = append(ks, k)
+	}
+	sort.Strings(ks)
+	out := make([]KV, 0, len(ks))
+	for _, k := range ks {
+		out = append(out, KV{K: k, V: ValOf(m[k])})
+	}
+	return out, nil
+}
+
+// SessReply is what the front-local session handlers answer.
+type SessReply struct {
+	Kind string
+	Has  bool
+	V    *Val
+	Dump string
+}
+
+type absent struct{}
+
+// FSet (front only): fs.Set(K, V) - or fs.Bind for the reserved key _ID with a string.
+func (h *H) FSet(ctx *impls.HandlerContext, a *Arg, cb apientry.HandlerCBFunc) {
+	h.n.logInvocation(ctx, "sentinel", 0)
+	if a.K == cs.KeyUId && a.V != nil && a.V.Kind == "str" {
+		ctx.Session.Bind(a.V.S)
+	} else {
+		ctx.Session.Set(a.K, a.V.Go())
+	}
+	apientry.CheckInvokeCBFunc(cb, nil, &SessReply{Kind: "fset"})
+}
+
+// FGet (front only): fs.Get(K, absent).
+func (h *H) FGet(ctx *impls.HandlerContext, a *Arg, cb apientry.HandlerCBFunc) {
+	h.n.logInvocation(ctx, "sentinel", 0)
+	x := ctx.Session.Get(a.K, absent{})
+	r := &SessReply{Kind: "fget"}
+	if _, no := x.(absent); !no {
+		r.Has, r.V = true, ValOf(x)
+	}
+	apientry.CheckInvokeCBFunc(cb, nil, r)
+}
+
+// FDump (front only): fs.ToJson().
+func (h *H) FDump(ctx *impls.HandlerContext, a *Arg, cb apientry.HandlerCBFunc) {
+	h.n.logInvocation(ctx, "sentinel", 0)
+	apientry.CheckInvokeCBFunc(cb, nil, &SessReply{Kind: "fdump", Dump: ctx.Session.ToJson()})
+}
+
+// Open (back-ends): reports the envelope the forwarder stamped (through the BackSession
+// ProcessForwardMsg built from it) and which instance received the request.
+func (h *H) Open(ctx *impls.HandlerContext, a *Arg, cb apientry.HandlerCBFunc) {
+	s := h.n.logInvocation(ctx, "open", a.T)
+	apientry.CheckInvokeCBFunc(cb, nil, h.reply(ctx, s, "open", a))
+}
+
 // backHandle is a back-session kept alive between driver operations.
 type backHandle struct {
 	inst int64
 	bs   *cs.BackSession
+}
+
+// BackNew creates a BackSession for (front gate-1, connection netId) inside instance inst.
+func (n *Node) BackNew(h, inst int64, netId uint32) error {
+	s := n.Svc(inst)
+	return s.Exec(func() {
+		bs := cs.NewBackSession(s.NodeService, "gate-1", netId, "")
+		n.sessMu.Lock()
+		n.bsTab[h] = &backHandle{inst: inst, bs: bs}
+		n.sessMu.Unlock()
+	})
+}
+
+func (n *Node) handle(h int64) *backHandle {
+	n.sessMu.Lock()
+	defer n.sessMu.Unlock()
+	return n.bsTab[h]
+}
+
+// HasBack reports whether handle h exists.
+func (n *Node) HasBack(h int64) bool { return n.handle(h) != nil }
+
+// ClearBacks forgets every back-session handle.
+func (n *Node) ClearBacks() {
+	n.sessMu.Lock()
+	n.bsTab = map[int64]*backHandle{}
+	n.sessMu.Unlock()
+}
+
+// BackSet runs bs.Set(k, v) (bs.Bind for _ID with a string) in the owning service.
+func (n *Node) BackSet(h int64, k string, v *Val) error {
+	bh := n.handle(h)
+	return n.Svc(bh.inst).Exec(func() {
+		if k == cs.KeyUId && v != nil && v.Kind == "str" {
+			bh.bs.Bind(v.S)
+		} else {
+			bh.bs.Set(k, v.Go())
+		}
+	})
+}
+
+// BackGet runs bs.Get(k, absent).
+func (n *Node) BackGet(h int64, k string) (has bool, v *Val, err error) {
+	bh := n.handle(h)
+	err = n.Svc(bh.inst).Exec(func() {
+		x := bh.bs.Get(k, absent{})
+		if _, no := x.(absent); !no {
+			has, v = true, ValOf(x)
+		}
+	})
+	return
+}
+
+// BackDump runs bs.ToJson().
+func (n *Node) BackDump(h int64) (dump string, err error) {
+	bh := n.handle(h)
+	err = n.Svc(bh.inst).Exec(func() { dump = bh.bs.ToJson() })
+	return
+}
+
+func (n *Node) backAsync(h int64, start func(bs *cs.BackSession, cb func(error))) (cbErr error, err error) {
+	bh := n.handle(h)
+	done := make(chan error, 1)
+	if err = n.Svc(bh.inst).Exec(func() { start(bh.bs, func(e error) { done <- e }) }); err != nil {
+		return nil, err
+	}
+	select {
+	case cbErr = <-done:
+		return cbErr, nil
+	case <-time.After(waitTimeout):
+		return nil, errors.New("e2e: session callback never ran")
+	}
+}
+
+// BackPush runs bs.PushSession and waits for its callback.
+func (n *Node) BackPush(h int64) (cbErr error, err error) {
+	return n.backAsync(h, func(bs *cs.BackSession, cb func(error)) { bs.PushSession(cb) })
+}
+
+// BackQuery runs bs.QuerySession and waits for its callback.
+func (n *Node) BackQuery(h int64) (cbErr error, err error) {
+	return n.backAsync(h, func(bs *cs.BackSession, cb func(error)) { bs.QuerySession(cb) })
 }
